@@ -180,6 +180,11 @@ class FunctionCall(TypedExpression):
                 else ("\n" if argument_layout.on_newline else " ")
             )
 
+        if argument_expr.has_scope():
+            # A let is not a valid bare call argument: parenthesize the scoped argument.
+            lead = len(args_str) - len(args_str.lstrip(" "))
+            args_str = f"{args_str[:lead]}({args_str[lead:]})"
+
         rec_str = ""
         if self.recursive:
             if (
